@@ -85,6 +85,33 @@ template <typename A> static void dirty_affine(A& a) {
     }
 }
 
+// Guard arena (--guard-end / --guard-start, production builds): the operands and results of the raw multi-precision and prime-field
+// operations live flush against PROT_NONE pages, so that an access outside an object by the hand-written assembly (which ASan cannot
+// instrument) faults.  Without the option the same slots are ordinary static storage.
+#include <sys/mman.h>
+#include <unistd.h>
+static int g_guard_mode = 0;          // 0 off, 1 object ends at the guard page, 2 object starts right after it
+#define NSLOT 16
+static uint8_t* g_slot_page[NSLOT];
+static long g_pagesz;
+static void guard_init(int mode) {
+    g_guard_mode = mode;
+    g_pagesz = sysconf(_SC_PAGESIZE);
+    for (int k = 0; k < NSLOT; k++) {
+        uint8_t* m = (uint8_t*) mmap(NULL, (size_t) (3 * g_pagesz), PROT_READ | PROT_WRITE, MAP_PRIVATE | MAP_ANONYMOUS, -1, 0);
+        if (m == MAP_FAILED) die("mmap failed", "");
+        mprotect(m, (size_t) g_pagesz, PROT_NONE); mprotect(m + 2 * g_pagesz, (size_t) g_pagesz, PROT_NONE);
+        g_slot_page[k] = m + g_pagesz;
+    }
+}
+template <typename T> static T& gslot(int k) {
+    static_assert(sizeof(T) <= 2048 && sizeof(T) % 16 == 0, "slot objects are multiples of 16 bytes");
+    alignas(16) static uint8_t plain[NSLOT][sizeof(T)];
+    if (!g_guard_mode) return *reinterpret_cast<T*>(&plain[k][0]);
+    if (g_guard_mode == 1) return *reinterpret_cast<T*>(g_slot_page[k] + g_pagesz - sizeof(T));
+    return *reinterpret_cast<T*>(g_slot_page[k]);
+}
+
 #define OP(name) if (!strcmp(op, name))
 
 static void poison(void* p, size_t n) { memset(p, 0xA5, n); }
@@ -98,7 +125,7 @@ static uint8_t* heapbuf(size_t n, uint8_t** raw) { *raw = (uint8_t*) malloc(n + 
 // ---------------------------------------------------------------- prime fields
 template <typename F, int bits>
 static bool field_ops(const char* op) {
-    F a, b, o;
+    F& a = gslot<F>(0); F& b = gslot<F>(1); F& o = gslot<F>(2);
     poison(&o, sizeof o);
     OP("set") { BigInt<bits> v; ldB(1, v); o.set(v); st(o); return true; }
     OP("get") { BigInt<bits> v; ld(1, a); a.get(v); stB(v); return true; }
@@ -642,8 +669,8 @@ static bool raw_ops(const char* op) {
     typedef FpBase<bits> F;
     typedef typename B::word_t word_t;
     // layout: [a | out] so that out can alias a when requested
-    B a, b, p, o;
-    F fa, fb, fo;
+    B& a = gslot<B>(3); B& b = gslot<B>(4); B& p = gslot<B>(5); B& o = gslot<B>(6);
+    F& fa = gslot<F>(7); F& fb = gslot<F>(8); F& fo = gslot<F>(9);
     int alias = 0;
     poison(&o, sizeof o); poison(&fo, sizeof fo);
     OP("add") { ldB(1, a); ldB(2, b); alias = (int) argi(3); B& r = alias ? a : o; bool c = r.add(a, b); stB(r); puti(c); return true; }
@@ -652,15 +679,15 @@ static bool raw_ops(const char* op) {
     OP("shr1") { ldB(1, a); alias = (int) argi(2); B& r = alias ? a : o; word_t c = r.template shift_right_in_word<1>(a); stB(r); puti((long long) (c != 0)); return true; }
     OP("shl") { ldB(1, a); unsigned amt = (unsigned) argu(2); alias = (int) argi(3); B& r = alias ? a : o; word_t c = r.shift_left(a, amt); stB(r); printf(" %llu", (unsigned long long) c); return true; }
     OP("shr") { ldB(1, a); unsigned amt = (unsigned) argu(2); alias = (int) argi(3); B& r = alias ? a : o; word_t c = r.shift_right(a, amt); stB(r); printf(" %llu", (unsigned long long) c); return true; }
-    OP("mul") { BB w; poison(&w, sizeof w); ldB(1, a); ldB(2, b); w.multiply(a, b); stB(w); return true; }
-    OP("sqr") { BB w; poison(&w, sizeof w); ldB(1, a); w.square(a); stB(w); return true; }
+    OP("mul") { BB& w = gslot<BB>(10); poison(&w, sizeof w); ldB(1, a); ldB(2, b); w.multiply(a, b); stB(w); return true; }
+    OP("sqr") { BB& w = gslot<BB>(10); poison(&w, sizeof w); ldB(1, a); w.square(a); stB(w); return true; }
     OP("cmp") { ldB(1, a); ldB(2, b); puti(B::compare(a, b)); return true; }
     OP("fpadd") { ldB(1, fa.val); ldB(2, fb.val); ldB(3, p); alias = (int) argi(4); F& r = alias ? fa : fo; r.add(fa, fb, p); stB(r.val); return true; }
     OP("fpsub") { ldB(1, fa.val); ldB(2, fb.val); ldB(3, p); alias = (int) argi(4); F& r = alias ? fa : fo; r.subtract(fa, fb, p); stB(r.val); return true; }
     OP("fpdbl") { ldB(1, fa.val); ldB(2, p); alias = (int) argi(3); F& r = alias ? fa : fo; r.multiply2(fa, p); stB(r.val); return true; }
     OP("fpneg") { ldB(1, fa.val); ldB(2, p); alias = (int) argi(3); F& r = alias ? fa : fo; r.negate(fa, p); stB(r.val); return true; }
     OP("mred") {
-        BB t; B inv; ldB(1, t); ldB(2, p); ldB(3, inv);
+        BB& t = gslot<BB>(10); B inv; ldB(1, t); ldB(2, p); ldB(3, inv);
         fo.montgomery_reduce(t, p, inv.words[0]); stB(fo.val); return true;
     }
     OP("fpmul") {
@@ -682,8 +709,9 @@ static bool raw_ops(const char* op) {
 #ifdef HAVE_X86_ASM
 // direct calls of both x86-64 routine families, bypassing the dispatch pointers
 static bool asm_ops(const char* op) {
-    BigInt<384> a, b, p, o, inv;
-    BigInt<768> w;
+    BigInt<384>& a = gslot<BigInt<384>>(11); BigInt<384>& b = gslot<BigInt<384>>(12); BigInt<384>& p = gslot<BigInt<384>>(13); BigInt<384>& o = gslot<BigInt<384>>(14);
+    BigInt<384> inv;
+    BigInt<768>& w = gslot<BigInt<768>>(15);
     poison(&o, sizeof o); poison(&w, sizeof w);
     int bmi = embedded_pairing_core_arch_x86_64_cpu_supports_bmi2_adx();
     OP("cpu") { puti(bmi); return true; }
@@ -715,6 +743,8 @@ static const char* after(const char* op, const char* prefix) {
 int main(int argc, char** argv) {
     for (int i = 1; i < argc; i++) {
         if (!strcmp(argv[i], "--x86base")) use_x86_baseline();
+        else if (!strcmp(argv[i], "--guard-end")) guard_init(1);
+        else if (!strcmp(argv[i], "--guard-start")) guard_init(2);
         else if (!strcmp(argv[i], "--info")) {
             printf("word_bits=%d asm=%d\n", (int) (8 * sizeof(BigInt<384>::word_t)),
 #ifdef HAVE_X86_ASM
